@@ -26,13 +26,15 @@ def queries(tier):
             vals = vals[:3]
         for v in vals:
             qs.append(q("bmp_field%02d_%08x" % (f, v), "h_bmp_hostile", dict(B, FIELD=f, VAL="%du" % v), "bitmap with %s = 0x%x: error or an object on which every public operation is safe" % (fn, v), unwind=1100))
+    for nm, sh in (("valid_9x2", B), ("valid_7x0", {"BC": 1, "BW": 7, "BH": 0, "USED": 0}), ("valid_5xm1", {"BC": 4, "BW": 5, "BH": "(-1)", "USED": 3})):
+        qs.append(q("bmp_" + nm, "h_bmp_hostile", dict(sh), "unmodified bitmap (%s): every public operation on the accepted object is safe (control; includes a zero-height picture)" % nm, unwind=1100))
     for t in ([0, 1, 13, 14, 53, 54, 61, 62, 66, 69] if tier == "quick" else range(0, 70)):
         qs.append(q("bmp_trunc%02d" % t, "h_bmp_hostile", dict(B, TRUNC=t), "bitmap truncated to %d of 70 bytes: refused" % t))
     tf = {0: ("PBMP length", [0, 0xFFFFFFFF]), 1: ("head length", [0x13]), 2: ("tag count", [3]), 3: ("pixel width", [31, 0]), 4: ("pixel height", [0, 64, 33, 0x7FFFFFE0, 0x80000000, 0xFFFFFFE0]),
           5: ("bit depth", [4, 0x10008, 1]), 7: ("PPAL length", [1047]), 10: ("palette data length", [1023]), 11: ("pixel data length", [1023, 2048, 0xFFFFFFFF]), 12: ("signature", [0x4D42])}
     for f, (fn, vals) in tf.items():
         if tier == "quick":
-            vals = vals[-3:] if f == 4 else vals[:1]
+            vals = [vals[0]] + vals[-3:] if f == 4 else vals[:1]
         for v in vals:
             qs.append(q("tileset_field%02d_%08x" % (f, v), "h_tileset_hostile", {"FIELD": f, "VAL": "%du" % v}, "custom tileset with %s = 0x%x" % (fn, v), unwind=2300, timeout=1500))
     for t in ([0, 7, 35, 1087, 1095, 2143] if tier == "quick" else [0, 3, 7, 8, 35, 36, 55, 63, 64, 1087, 1088, 1095, 1096, 2000, 2143]):
